@@ -115,6 +115,34 @@ def reduce_inverts_elevation(ctx, degree, layout):
     ctx.check_eq_grid('reduction_inverts', R, P)
 
 
+@scenario('C08', fns=['helpers.degree_reduction', 'helpers.degree_elevation'],
+          quick=[dict(degree=d, layout=l) for d in (2, 3, 5) for l in ('cartesian', 'homogeneous')],
+          thorough=[dict(degree=d, layout=l) for d in range(2, 9) for l in ('cartesian', 'homogeneous')])
+def results_are_the_callers(ctx, degree, layout):
+    """requires: two different polygons of the same degree and dimension, elevated once and reduced / elevated one after
+                 the other, the first answers kept
+       ensures : each kept answer still equals its own polygon after the later calls (results are not shared storage),
+                 and the input polygons were not modified"""
+    dim = _dims(layout)
+    p = degree - 1
+    hp = ctx.geomdl('helpers')
+    P1, P2 = _polygon(ctx, p + 1, dim, 'P'), _polygon(ctx, p + 1, dim, 'S')
+    Q1 = hp.degree_elevation(p, [list(pt) for pt in P1], num=1)
+    Q2 = hp.degree_elevation(p, [list(pt) for pt in P2], num=1)
+    q1_in = [list(q) for q in Q1]
+    R1 = hp.degree_reduction(degree, q1_in)
+    R2 = hp.degree_reduction(degree, [list(q) for q in Q2])
+    ctx.check_eq_grid('first_reduction.kept_answer', R1, P1)
+    ctx.check_eq_grid('second_reduction', R2, P2)
+    ctx.check_eq_grid('input_of_reduction.unchanged', q1_in, Q1)
+    want1 = spec.bernstein_to_monomial(P1) + [[0] * dim]
+    ctx.check_eq_grid('first_elevation.kept_answer', spec.bernstein_to_monomial(Q1), want1)
+    # editing a returned polygon does not leak into a later call
+    R1[0][0] = R1[0][0] + 5
+    R3 = hp.degree_reduction(degree, [list(q) for q in Q2])
+    ctx.check_eq_grid('third_reduction.after_caller_edit', R3, P2)
+
+
 def _rej_shapes(tier):
     out = []
     for deg in (1, 2, 3, 5, 8):
